@@ -165,15 +165,19 @@ def run(tier):
         d = len(s["A"])
         nvals = 3 * (d + 1) + 8
         s["nvals"] = nvals
-        jobs.append((s, False))
-        jobs.append((s, True))
+        jobs.append((s, False, None))
+        jobs.append((s, True, None))
+        if len(jobs) % 5 == 0 and not s["subs"]:
+            jobs.append((s, True, r.choice([{"numeric_roots": True, "numeric_eps": 1e-12}, {"numeric_croots": True}])))
     tasks = [{"fn": "harness.tasks.solve:solve_system",
               "args": {"A": s["A"], "v": s["v"], "consts": s["consts"], "force_cyclic": fc, "nvals": s["nvals"],
-                       "subs": s["subs"]}} for s, fc in jobs]
+                       "subs": s["subs"], "numeric": num}} for s, fc, num in jobs]
     outs = run_tasks(tasks, timeout=50 if quick else 200, progress=100) if lean_ok else []
     reqs, meta = [], []
-    for (s, fc), out in zip(jobs, outs):
+    for (s, fc, num), out in zip(jobs, outs):
         chk.evaluations += 1
+        if num:
+            chk.count("numeric-option-jobs")
         if out["status"] == "timeout":
             chk.count("timeout")
             continue
@@ -229,19 +233,23 @@ def run(tier):
             for n, (tag_val, row) in enumerate(zip(comp["values"], ans["seq"])):
                 tag, sv = tag_val
                 want = Fr(row[comp["i"]])
-                if tag == "q":
+                exact = bool(comp.get("exact"))
+                if tag == "q" and exact:
                     if Fr(sv) != want:
                         bad = (n, sv, H.fr_str(want), "wrong-value")
                         break
-                elif tag in ("float", "irrational"):
+                elif tag in ("q", "float", "irrational"):
+                    if exact and tag == "float":
+                        bad = (n, sv, H.fr_str(want), "float-in-result-flagged-exact")
+                        break
                     try:
-                        z = complex(sv.replace("*I", "j").replace(" ", "")) if "I" in sv else complex(float(sv))
-                        tol = 1e-6 * max(1.0, abs(float(want))) if not comp.get("exact") else 1e-25 * max(1.0, abs(float(want)))
-                        if comp.get("exact") and tag == "float":
-                            bad = (n, sv, H.fr_str(want), "float-in-result-flagged-exact")
-                            break
-                        if abs(z - float(want)) > max(tol, 1e-9 * max(1.0, abs(float(want)))):
-                            bad = (n, sv, H.fr_str(want), "wrong-value-" + tag)
+                        if tag == "q":
+                            z = complex(float(Fr(sv)))
+                        else:
+                            z = complex(sv.replace("*I", "j").replace(" ", "")) if "I" in sv else complex(float(sv))
+                        tol = (1e-25 if exact else 1e-6) * max(1.0, abs(float(want)))
+                        if abs(z - float(want)) > max(tol, 1e-12 * max(1.0, abs(float(want)))):
+                            bad = (n, sv, H.fr_str(want), "wrong-value-" + tag + ("" if exact else "-rounded-beyond-tolerance"))
                             break
                     except Exception:
                         bad = (n, sv, H.fr_str(want), "unparseable-value")
